@@ -127,7 +127,10 @@ Flat(qq) == IF qq = <<>> THEN <<>> ELSE Head(qq) \o Flat(Tail(qq))
 \* ---- family hist: case kinds -----------------------------------------------------------------
 AllMuts == {"none", "envAll", "envAct", "envNon", "unset", "unsetAct", "expand", "expandAct", "cdTmp", "cdUp",
             "cdSub", "timeout", "def", "refX", "files", "stdin", "statusFail", "statusSkip", "actorNull", "obsT",
-            "syntaxErr", "envBA", "envCleanup", "defLate", "cdLate", "timeoutLate"}
+            "syntaxErr", "envBA", "envCleanup", "defLate", "cdLate", "timeoutLate", "homeConf"}
+\* "homeConf": the case sets its own home directory in [conf] (home = DIR).  That is a setting of THAT case: the
+\* machine does not thread it through the process, and every other case finds the files of its own default home
+\* (the harness lets every case that does not set it begin with an instruction that needs a file of that directory)
 \* how a case ends: PASS; a failing assertion; a failing helper in [setup] directly after the change; an action to
 \* check that cannot be executed; a failing helper in [cleanup]
 AllEnds == {"pass", "fail", "hard", "acthard", "cleanuphard"}
@@ -171,6 +174,7 @@ KindDoc(k) ==
           CASE p = "conf"   -> (CASE m = "statusFail" -> <<I("status", "FAIL", "", NoVal)>>
                                   [] m = "statusSkip" -> <<I("status", "SKIP", "", NoVal)>>
                                   [] m = "actorNull"  -> <<I("actor", "null", "", NoVal)>>
+                                  [] m = "homeConf"   -> <<I("home", "alt", "", NoVal)>>
                                   [] OTHER            -> <<>>)
             [] p = "setup"  -> <<Probe("p0")>> \o MutInstrs(m)
                                  \o (IF m = "timeout" THEN <<>> ELSE <<Probe("p1")>>)
